@@ -19,6 +19,7 @@ EXPLANATION = (
     ' Every upward walk in _locate_config_dir starts from os.path.abspath(...); directory creation written in init_project tolerates an existing directory.'
     ' The search=False guard tests a lexically normalised file name like the walk that follows; a textual parent (dirname) of the truncated job path needs an explicit existence test; every upward walk (also one factored into a generator helper) starts from os.path.abspath.'
     ' (e) only `signac init` / `migrate` create directories: no other sub-command plants a project marker (C19-e).'
+    ' (f) `signac move` / `clone` hand their PROJECT argument to get_project as given (C19-f).'
 )
 UNDECIDED = "Resolution for every directory layout, relative paths under varying cwd and LookupError for every non-matching input are not decided."
 
